@@ -88,7 +88,7 @@ async fn run(mut sim: Sim, _seed: u64) -> Result<Value, String> {
         settle(&mut sim, ms).await;
         let a = sim.rng.gen_range(0..dialers);
         let b = sim.rng.gen_range(0..n);
-        match sim.rng.gen_range(0..10) {
+        match sim.rng.gen_range(0..12) {
             0..=2 => {
                 sim.run.fabric.partition(sim.addr(a), sim.addr(b));
                 sim.run.obs(-1, "obs.fault", json!({"what": "partition", "a": a, "b": b}));
@@ -104,6 +104,35 @@ async fn run(mut sim: Sim, _seed: u64) -> Result<Value, String> {
                     sim.restart_node(b).map_err(|e| e.to_string())?;
                     sim.subscribe(b).unwrap();
                 }
+            }
+            9 if sim.nodes[a].net.is_some() => {
+                // explicit connects (to an address nobody answers on) occupy connecting slots
+                // right when the next connectivity check is due: the cap counts them too
+                let now = sim.run.now_ms();
+                let next_tick = (now / interval + 1) * interval;
+                if next_tick > now + 15 {
+                    sim.sleep_ms(next_tick - now - 10).await;
+                }
+                let k = 1 + sim.rng.gen_range(0..2);
+                for _ in 0..k {
+                    let dead = dead_addr(&mut sim);
+                    let net = sim.net(a).clone();
+                    let run = sim.run.clone();
+                    tokio::spawn(async move {
+                        let r = tokio::time::timeout(std::time::Duration::from_secs(60), net.connect(dead)).await;
+                        let err = match r {
+                            Ok(Ok(_)) => None,
+                            Ok(Err(e)) => Some(format!("{e}")),
+                            Err(_) => Some("HANG".to_string()),
+                        };
+                        run.obs(
+                            a as i64,
+                            sim::connect_event(err.as_deref()),
+                            json!({"ok": err.is_none(), "err": err}),
+                        );
+                    });
+                }
+                settle(&mut sim, 30).await;
             }
             7 if sim.nodes[a].net.is_some() => {
                 // the application drops a connection: it must be re-dialed
@@ -123,6 +152,29 @@ async fn run(mut sim: Sim, _seed: u64) -> Result<Value, String> {
                         },
                     );
                 }
+            }
+            10 if sim.nodes[a].net.is_some() => {
+                // same with an inbound handshake in flight at the tick: b dials a just before it
+                let now = sim.run.now_ms();
+                let next_tick = (now / interval + 1) * interval;
+                if next_tick > now + 15 {
+                    sim.sleep_ms(next_tick - now - 3).await;
+                }
+                if sim.nodes[b].net.is_some() && a != b {
+                    let net = sim.net(b).clone();
+                    let run = sim.run.clone();
+                    let addr = sim.addr(a);
+                    tokio::spawn(async move {
+                        let r = tokio::time::timeout(std::time::Duration::from_secs(60), net.connect(addr)).await;
+                        let (ok, peer, err) = match r {
+                            Ok(Ok(p)) => (true, Some(run.node_of(&p)), None),
+                            Ok(Err(e)) => (false, None, Some(format!("{e}"))),
+                            Err(_) => (false, None, Some("HANG".to_string())),
+                        };
+                        run.obs(b as i64, sim::connect_event(err.as_deref()), json!({"ok": ok, "peer": peer, "err": err}));
+                    });
+                }
+                settle(&mut sim, 30).await;
             }
             _ => {
                 sim.obs_all_peers();
